@@ -121,6 +121,12 @@ CHECKS.update({
             "Histories are short (<=50 operations) so that the linearizability check stays tractable; an inconclusive (timed out) check is counted, never reported.", "3/C22"),
 })
 
+CHECKS.update({
+    "C17": ("fault_enumeration", "deterministic simulation of concurrent change sets through the real MANIFEST code + exhaustive byte cuts and bit flips of the last records",
+            "Generated change-set histories (creates, deletes, deletes of unknown tables, levels, key ids, compression, rewrite thresholds that trigger automatic rewrites) go through the production addChanges from several goroutines; replay must equal the model; then the file is cut at every byte and one bit is flipped at every byte of the last change sets: a cut yields exactly the state after the last complete set, a flip is an error or a complete-set prefix state, never anything else. One defect found and fixed.",
+            "Exhaustive over the bytes of the last <=4 change sets of each history; histories are sampled. The MANIFEST code runs without a DB around it (tag-guarded accessor).", "3/C17"),
+})
+
 PENDING = {}  # property -> reason while not yet implemented
 
 def main():
